@@ -268,6 +268,7 @@ def main():
             "holds_evaluated_on_impl_outputs": sum(1 for v in verdicts if v["holds"] is True),
             "disagreements": len(disagree),
             "corpus_cases": n_corpus,
+            "fixed_and_exhaustive_small_scope_cases": sum(1 for c in cases if c.get("_origin") == "fixed"),
             "distribution": dict(sorted(tags.items())),
             "source_drift": drift,
             "source_fingerprints": cur_fp,
